@@ -19,7 +19,7 @@ for ev in sorted(glob.glob('/verif/evidence/C*.json')):
         f=idx.get(kid)
         if not f or f.get('status')!='open': continue
         cur=set(f.get('closed_in',[]))
-        for n in a.get('in_region_without_failure',[]):
+        for n in (a.get('in_region_without_failure') or []):
             if n not in cur:
                 cur.add(n); added+=1
         if cur: f['closed_in']=sorted(cur)
